@@ -16,6 +16,9 @@ CLAIMED = {
     "C04": dict(category="proof", technique="contract-based deductive verification (pyvc VCs from real source + z3); bounded run-time contracts as stand-in", text="(in progress)", design_ref="DESIGN.md 4 (C04)", note=BASE_NOTE),
     "C09": dict(category="proof", technique="contract-based deductive verification (pyvc VCs from real source + z3); arraymap get/set as assumed contracts checked at run time over exhaustive bounded operation sequences", text="(in progress)", design_ref="DESIGN.md 4 (C09)", note=BASE_NOTE),
     "C01": dict(category="other", technique="contract-based deductive verification of the kernel functions (pyvc + z3) + exhaustive run-time detailed-balance contracts on small state spaces (bounded)", text="(in progress)", design_ref="DESIGN.md 4 (C01)", note=BASE_NOTE),
+    "C05": dict(category="other", technique="contract-based deductive verification of the kernel functions (pyvc + z3) + run-time contracts over exhaustively enumerated bounded domains", text="(in progress)", design_ref="DESIGN.md 4 (C05)", note=BASE_NOTE),
+    "C02": dict(category="other", technique="contract-based deductive verification of the kernel functions (pyvc + z3) + run-time contracts over exhaustively enumerated bounded domains", text="(in progress)", design_ref="DESIGN.md 4 (C02)", note=BASE_NOTE),
+    "C03": dict(category="other", technique="contract-based deductive verification of the kernel functions (pyvc + z3) + run-time contracts over exhaustively enumerated bounded domains", text="(in progress)", design_ref="DESIGN.md 4 (C03)", note=BASE_NOTE),
     "C11": dict(
         category="proof",
         technique="contract-based deductive verification: sidecar contracts on the real functions, VCs generated from /repo source by pyvc, discharged by z3 (unbounded); run-time contracts on a bounded grid as stand-in for the not-yet-proved functions",
